@@ -56,3 +56,25 @@ func (l *NDNLPLinkService) VerifHandleIncomingFrame(frame []byte) { l.handleInco
 
 // VerifSendPacket is sendPacket, called synchronously: what runSend does with every queued packet.
 func (l *NDNLPLinkService) VerifSendPacket(out dispatch.OutPkt) { sendPacket(l, out) }
+
+// VerifDrainSent returns (and removes) the frames the internal component has sent so far on a
+// transport whose runReceive loop is not running.
+func (t *InternalTransport) VerifDrainSent() (out [][]byte) {
+	for {
+		select {
+		case f := <-t.sendQueue:
+			out = append(out, f)
+		default:
+			return
+		}
+	}
+}
+
+// VerifMakeInternalTransport is MakeInternalTransport with queues that do not depend on whether
+// face.Configure() has run (faceQueueSize is 0 before it): nothing reads the queues concurrently.
+func VerifMakeInternalTransport() *InternalTransport {
+	t := MakeInternalTransport()
+	t.recvQueue = make(chan []byte, 1024)
+	t.sendQueue = make(chan []byte, 1024)
+	return t
+}
